@@ -103,6 +103,17 @@ def enumerate_cases(tier):
                 yield {'kind': 'doc', 't': ['ann', ['tok', A], ['cat', [['t', 'a'], inner, ['t', 'c']]]], 'w': 20, 'style': ('@dark', 'default', 'murphy')[ki % 3], 'mode': 'true'}
                 deeper = ['ann', ['raw', k], ['cat', [['ann', ['tok', B], ['cat', [['t', 'b'], ['ann', 0, ['ann', ['tok', A], ['t', 'd']]], ['t', 'e']]]], ['hard'], ['t', 'm']]]]
                 yield {'kind': 'doc', 't': ['ann', ['tok', A], ['cat', [['t', 'a'], deeper, ['t', 'c']]]], 'w': 20, 'style': ('@dark', 'default', 'murphy')[ki % 3], 'mode': 'true'}
+    # siblings: a token directly followed / preceded by a non-token annotation, another token, or plain text - in every order,
+    # at the top level and inside an enclosing token
+    import itertools
+    sib = {'tokA': ['ann', ['tok', 'NUMBER_INT'], ['t', 'a']], 'tokB': ['ann', ['tok', 'LITERAL_STRING'], ['t', 'b']], 'text': ['t', 'x'],
+           'raw': ['ann', ['raw', 'int3'], ['t', 'r']], 'rawtok': ['ann', ['raw', 'list'], ['ann', ['tok', 'COMMENT_SINGLE'], ['t', 'c']]],
+           'raw0': ['ann', 0, ['t', 'o']]}
+    for combo in itertools.permutations(sorted(sib), 3):
+        t = ['cat', [sib[k] for k in combo]]
+        for style in ('@dark', 'default'):
+            yield {'kind': 'doc', 't': t, 'w': 40, 'style': style, 'mode': 'true'}
+        yield {'kind': 'doc', 't': ['ann', ['tok', 'NAME_FUNCTION'], ['cat', [['t', '<']] + [sib[k] for k in combo] + [['t', '>']]]], 'w': 40, 'style': '@dark', 'mode': 'true'}
     # lines that hold no text fragment at all (consecutive / final hardlines, an annotated empty text)
     for t in (['cat', [['t', 'a'], ['hard'], ['hard'], ['t', 'b']]], ['cat', [['t', 'a'], ['hard']]],
               ['nest', 2, ['cat', [['hard'], ['ann', ['tok', 'NUMBER_INT'], ['t', '']], ['hard'], ['ann', ['tok', 'COMMENT_SINGLE'], ['cat', [['t', 'c'], ['hard'], ['hard'], ['t', 'd']]]]]]]):
